@@ -418,17 +418,13 @@ def formatTime (t : T) (pic : S) : Option S :=
 
 /-! ### $fromMillis -/
 
-/-- strconv.Atoi on two bytes -/
+/-- two decimal digits -/
 def atoi2 (s : S) : Option Int :=
   match s with
-  | [a, b] =>
-    if isDig a && isDig b then some (natOfDigits [a, b])
-    else if a == '-' && isDig b then some (-(natOfDigits [b] : Int))
-    else if a == '+' && isDig b then some (natOfDigits [b])
-    else none
+  | [a, b] => if isDig a && isDig b then some (natOfDigits [a, b]) else none
   | _ => none
 
-/-- parseTimeZone: offset in seconds -/
+/-- parseTimeZone: a sign and four digits HHMM (minutes at most 59); offset in seconds -/
 def parseTimeZone (tz : S) : Option Int :=
   if tz.length != 5 || tz.any (fun c => c.toNat ≥ 128) then none
   else
@@ -436,7 +432,7 @@ def parseTimeZone (tz : S) : Option Int :=
     | sg :: rest =>
       let mult : Option Int := if sg == '-' then some (-1) else if sg == '+' then some 1 else none
       match mult, atoi2 (rest.take 2), atoi2 (rest.drop 2) with
-      | some k, some h, some m => some (k * (60 * (60 * h + m)))
+      | some k, some h, some m => if m > 59 then none else some (k * (60 * (60 * h + m)))
       | _, _, _ => none
     | [] => none
 
